@@ -1398,7 +1398,7 @@ def _check_pairs(dialect, pairs, expected, what, exact, fails, shown):
         why = L.denotes(dialect, u, expected[col])
         if why is not None:
             fails.append(('alignment', '%s: %s: column %r was given %r but %s; %s'
-                          % (dialect, what, col, expected[col], why.replace('the bound argument', 'its placeholder receives')
+                          % (dialect, what, col, expected[col], why.replace('the bound argument is', 'its placeholder receives')
                              if u.kind == 'param' else 'its operand ' + why, shown)))
     if exact:
         for col in expected:
@@ -1508,15 +1508,24 @@ def judge_history(case):
             mark = len(log)
             if kind == 'set':
                 kw = [(c, dec(v)) for c, v in op[3]]
-                if op[4] == 'set':
-                    o.set(**dict(kw))
-                else:
-                    for c, v in kw:
-                        setattr(o, c, v)
-                flush()
-                model_p[pk].update(dict(kw))
                 changed = {c: v for c, v in dict(kw).items() if v != before[c]}
                 same = {c: v for c, v in dict(kw).items() if v == before[c]}
+                try:
+                    if op[4] == 'set':
+                        o.set(**dict(kw))
+                    else:
+                        for c, v in kw:
+                            setattr(o, c, v)
+                    flush()
+                except Exception:
+                    # the statement that was refused (e.g. a spurious OptimisticCheckError) is judged before the error is reported
+                    for s_, a_ in stmts_since(mark, 'UPDATE')[:1]:
+                        _analyse_hist_statement(dialect, 'UPDATE', s_, a_, {'set': col_map(dict(kw)), 'set_may_skip': col_map(same),
+                                                                              'where': col_map(dict(before))}, fails)
+                    if fails:
+                        return
+                    raise
+                model_p[pk].update(dict(kw))
                 st = stmts_since(mark, 'UPDATE')
                 if not changed and not st:
                     return
